@@ -42,7 +42,10 @@ META = {
         "single horizontal-coded row and followed by a shifted copy (vertical/pass modes on wide reference lines); runs: "
         "every run length 0..2700 of each colour as a horizontal-coded row (all terminating and make-up codes). "
         "states = encoder states (row, a0, colour) visited, transitions = codings taken, traces = complete encodings "
-        "decoded and compared; non-trivial = encoding with at least one black pixel."
+        "decoded and compared; non-trivial = encoding with at least one black pixel. history: one CCITTFaxDecoder OBJECT used for a call history - every image "
+        "(all 1- and 2-row bitmaps of width 3 (thorough: 4), 72 of width 8) fed in two chunks at every split point, and fed up to every byte prefix (complete, or cut in the "
+        "middle of a row), then reset(), then every image of the same width: the second image must decode as on a fresh decoder; chain: every bitmap up to 4x2 and three wide "
+        "two-row images behind ASCIIHex, ASCII85, Flate, Flate+ASCIIHex, RunLength (full and abbreviated filter names) and behind a decipher callback, through PDFStream.get_data."
     ),
     "bound": {k: f"full product for sizes {v['full']}; one deviating line for {v['dev']}; wide rows with <= {v['wide_runs']} runs" for k, v in BOUNDS.items()},
     "assumptions": [
@@ -194,9 +197,142 @@ def explore_wide(st, runs):
             judge(st, [r, r2], [p1[1], p2[1]], [p1[0], p2[0]], w)
 
 
+def std_encode(rows, w, bytealign, eofb=True):
+    ref = (0,) * w
+    bits = []
+    for r in rows:
+        bits.append(next(t6.line_paths(ref, r, "std"))[1])
+        ref = r
+    return t6.assemble(bits, bytealign, eofb)
+
+
+# rows of width 8 used by the call-history families (runs starting with either colour, full/empty rows, single pixels)
+ROWS8 = [(0,) * 8, (1,) * 8, (0, 0, 0, 1, 1, 1, 0, 0), (1, 0, 1, 0, 1, 0, 1, 0), (0, 1, 1, 1, 1, 1, 1, 0), (1, 1, 1, 1, 0, 0, 0, 0), (0, 0, 0, 0, 0, 0, 0, 1), (1, 0, 0, 0, 0, 0, 0, 0)]
+
+
+def history_images(w):
+    if w == 8:
+        rows = ROWS8
+        return [[a] for a in rows] + [[a, b] for a in rows for b in rows]
+    rows = all_rows(w)
+    return [[a] for a in rows] + [[a, b] for a in rows for b in rows]
+
+
+def explore_history(st, w, first_image):
+    """One decoder OBJECT used for a history of calls: (1) data fed in two chunks at every split point equals data fed at once;
+    (2) after reset() - whatever prefix of another image was fed before, complete or cut in the middle of a row - the next image
+    decodes as on a fresh decoder (rows already emitted stay in front of it)."""
+    from pdfminer.ccitt import CCITTFaxDecoder
+
+    images = history_images(w)
+    A = first_image
+    for bytealign in (False, True):
+        dataA = std_encode(A, w, bytealign)
+        for blackis1 in (False, True):
+            fresh = {}
+            for B in images:
+                dB = std_encode(B, w, bytealign)
+                d = CCITTFaxDecoder(w, bytealign=bytealign, reversed=blackis1)
+                d.feedbytes(dB)
+                fresh[tuple(B)] = (dB, d.close())
+            # (1) split feeding of A
+            whole = fresh[tuple(A)][1] if tuple(A) in fresh else None
+            for k in range(0, len(dataA) + 1):
+                st.states += 1
+                st.transitions += 2
+                st.traces += 1
+                case = {"history": "split", "w": w, "rows": [list(r) for r in A], "bytealign": bytealign, "blackis1": blackis1, "k": k}
+                try:
+                    d = CCITTFaxDecoder(w, bytealign=bytealign, reversed=blackis1)
+                    d.feedbytes(dataA[:k])
+                    d.feedbytes(dataA[k:])
+                    got = d.close()
+                except Exception as e:  # noqa
+                    got = f"{type(e).__name__}: {e}"
+                st.case(None, nontrivial=any(any(r) for r in A), outcome=("split", got if not isinstance(got, bytes) else len(got)))
+                if whole is not None and got != whole:
+                    st.violation("C19/history:split-feed-differs", case, whole, got, "feeding the data in two chunks differs from feeding it at once")
+            # (2) reset after every byte prefix of A, then every image B
+            for k in range(0, len(dataA) + 1):
+                for B in images:
+                    dB, expB = fresh[tuple(B)]
+                    st.states += 1
+                    st.transitions += 3
+                    st.traces += 1
+                    case = {"history": "reset", "w": w, "rows": [list(r) for r in A], "rows2": [list(r) for r in B], "bytealign": bytealign, "blackis1": blackis1, "k": k}
+                    try:
+                        d = CCITTFaxDecoder(w, bytealign=bytealign, reversed=blackis1)
+                        d.feedbytes(dataA[:k])
+                        pre = d.close()
+                        d.reset()
+                        d.feedbytes(dB)
+                        got = d.close()
+                        got = got[len(pre):] if got[: len(pre)] == pre else b"<rows emitted before reset() changed>" + got
+                    except Exception as e:  # noqa
+                        got = f"{type(e).__name__}: {e}"
+                    st.case(None, nontrivial=any(any(r) for r in B), outcome=("reset", got if not isinstance(got, bytes) else len(got)))
+                    if got != expB:
+                        st.violation("C19/history:decoder-after-reset-differs-from-fresh", case, expB, got, "after reset() the decoder does not decode like a fresh one")
+
+
+CHAINS = [
+    (["ASCIIHexDecode", "CCITTFaxDecode"], "ahx"), (["AHx", "CCF"], "ahx"), (["ASCII85Decode", "CCITTFaxDecode"], "a85"), (["FlateDecode", "CCITTFaxDecode"], "fl"),
+    (["Fl", "AHx", "CCF"], "fl+ahx"), (["RunLengthDecode", "CCF"], "rl"), (["CCITTFaxDecode"], "decipher"),
+]
+
+
+def explore_chain(st, rows, w):
+    """the Group 4 data behind other filters of a PDFStream filter chain, and behind a decipher callback: the decoder must be handed the
+    output of the previous stage, and the result equals the direct decoding"""
+    import base64
+    import zlib
+
+    from mc.refs import filters as F
+
+    for bytealign in (False, True):
+        data = std_encode(rows, w, bytealign)
+        for blackis1 in (False, True):
+            exp = t6.packed_rows(rows, blackis1)
+            mask = t6.row_mask(w, len(rows))
+            parms = {"K": -1, "Columns": w, "EncodedByteAlign": bytealign, "BlackIs1": blackis1}
+            for names, how in CHAINS:
+                raw = data
+                if how == "ahx":
+                    raw = data.hex().encode() + b">"
+                elif how == "a85":
+                    raw = base64.a85encode(data) + b"~>"
+                elif how == "fl":
+                    raw = zlib.compress(data)
+                elif how == "fl+ahx":
+                    raw = zlib.compress(data.hex().encode() + b">")
+                elif how == "rl":
+                    raw = F.rl_encode(data)
+                elif how == "decipher":
+                    raw = bytes(b ^ 0x5A for b in data)
+                s = PDFStream({"Filter": [LIT(n) for n in names], "DecodeParms": [None] * (len(names) - 1) + [parms]}, raw)
+                if how == "decipher":
+                    s.set_objid(7, 0)
+                    s.decipher = lambda objid, genno, d, attrs=None: bytes(b ^ 0x5A for b in d)
+                case = {"chain": names, "how": how, "w": w, "rows": [list(r) for r in rows], "bytealign": bytealign, "blackis1": blackis1}
+                st.states += 1
+                st.transitions += len(names)
+                st.traces += 1
+                try:
+                    got = s.get_data()
+                except Exception as e:  # noqa
+                    got = f"{type(e).__name__}: {e}"
+                st.case(None, nontrivial=any(any(r) for r in rows), outcome=("chain", how, got if not isinstance(got, bytes) else len(got)))
+                if not same(got, exp, mask):
+                    st.violation("C19/pdfstream-chain:" + how, case, exp, got, "CCITTFaxDecode as a later stage of a filter chain (or behind decryption) differs from direct decoding")
+
+
 def shards(tier):
     b = BOUNDS[tier]
     out = []
+    for w in ((3, 8) if tier == "quick" else (3, 4, 8)):
+        for i in range(len(history_images(w))):
+            out.append(("history", w, i))
+    out.append(("chain",))
     for kind in ("full", "dev"):
         for (w, h) in b[kind]:
             firsts = all_rows(w)
@@ -225,6 +361,19 @@ def run_shard(shard, tier, st):
             rows = [fr] + list(rest[len(rest) // 2])
             ref = (0,) * w
             st.sample({"rows": rows, "paths_per_line": [[p[0] for p in t6.line_paths(a, c, "all")] for a, c in zip([ref] + rows, rows)]})
+    elif shard[0] == "history":
+        explore_history(st, shard[1], history_images(shard[1])[shard[2]])
+        if shard[1:] == (3, 9):
+            st.sample({"family": "history", "width": 3, "first_image": history_images(3)[9], "second_images": len(history_images(3))})
+    elif shard[0] == "chain":
+        for w in (1, 2, 3, 4):
+            for h in (1, 2):
+                for rows in itertools.product(all_rows(w), repeat=h):
+                    explore_chain(st, list(rows), w)
+        for runs in ((64, 1728, 8), (0, 2560, 3, 70), (5, 7, 1000, 1)):
+            r = wide_row(runs)
+            explore_chain(st, [r, ((0, 0, 0) + r)[: len(r)]], len(r))
+        st.sample({"family": "chain", "chains": [c[0] for c in CHAINS]})
     elif shard[0] == "wide":
         f = shard[1]
         n = b["wide_runs"]
@@ -271,6 +420,12 @@ def replay(case):
     st = Stats()
     rows = [tuple(r) for r in case["rows"]]
     w = case["w"]
+    if case.get("history") or case.get("chain"):
+        if case.get("history"):
+            explore_history(st, w, rows)
+        else:
+            explore_chain(st, rows, w)
+        return [{"signature": v["signature"], "expected": repr(v["expected"]), "observed": repr(v["observed"])} for v in st.violations]
     exp = t6.packed_rows(rows, case["blackis1"])
     mask = t6.row_mask(w, len(rows))
     try:
